@@ -20,7 +20,7 @@ sys.path.insert(0, ROOT)
 from tools import rs2coq2   # noqa
 
 SCR = "/tmp/t2eval_%d" % os.getpid()
-TARGETS = ["theories/proofs/Gen2_equiv_chunk.vo", "theories/proofs/Gen2_equiv_framing.vo", "theories/proofs/Gen2_transport.vo", "theories/proofs/Gen2_equiv_flow.vo", "theories/proofs/Gen2_equiv_analyze.vo"]
+TARGETS = ["theories/proofs/Gen2_equiv_chunk.vo", "theories/proofs/Gen2_equiv_framing.vo", "theories/proofs/Gen2_transport.vo", "theories/proofs/Gen2_equiv_flow.vo", "theories/proofs/Gen2_equiv_analyze.vo", "theories/proofs/Gen2_equiv_call.vo"]
 
 
 def main():
@@ -43,7 +43,7 @@ def main():
     for p in pats:
         text = open(p).read()
         files = re.findall(r"^\+\+\+ b/(\S+)", text, flags=re.M)
-        if not any(f in ("src/chunk.rs", "src/body.rs", "src/util.rs", "src/client/flow.rs", "src/client/amended.rs", "src/ext.rs") for f in files):
+        if not any(f in ("src/chunk.rs", "src/body.rs", "src/util.rs", "src/client/flow.rs", "src/client/amended.rs", "src/client/call.rs", "src/ext.rs") for f in files):
             continue
         name = os.path.basename(os.path.dirname(p))
         if os.path.isdir(which):
